@@ -37,6 +37,10 @@ CLAIMED = {
    text="Deductive proof per function. shachain: getBit, getPrefix (with a bit-vector lemma about Go's & operator), countTrailingZeros (loop invariant), newIndex equal their arithmetic specs; deriveBitTransformations succeeds exactly when the source index is the target with its low bits cleared and only emits positions whose bit is set; RevocationStore.AddNextEntry: every bucket below the new element's bucket is checked against the derived value (loop step relation: derive succeeded and isEqual returned true, and the loop covers all of them), the element is stored at bucket ctz(index), lenBuckets becomes max(old, b+1), index decreases by one, every other bucket is unchanged (quantified frame postcondition), nothing changes on error; LookUp derives from bucket i < lenBuckets with the requested index; no out-of-range access (nopanic) except the listed finding F2. lnwallet: RevokeCurrentCommitment returns a non-nil revoke_and_ack only if UpdateCommitment returned nil for the commitment at height+1 and the message is generateRevocation(old height); generateRevocation takes the secret at AtIndex(height) and the next point from AtIndex(height+2); ReceiveRevocation inserts the received secret into the store and compares the derived point with the stored one before any state is changed, and advances memory only after AdvanceCommitChainTail returned nil.",
    note="Known finding F2 (store.index == 0 -> bucket 48 out of range) is reported as KNOWN-FINDING. Assumed: element.derive's frame (modifies-assumed nothing: it writes only local buffers and a fresh element), sha256/chainhash opaque; the hash-chain content of derive (flip bit, hash) is not connected to a spec function, so 'reproduces each secret exactly' is decided only at the level of the store algorithm's control and index arithmetic, not of the 48-bit whole-store theorem; Encode/NewRevocationStoreFromBytes round trip not covered; ProcessChanSyncMsg retransmission belongs to C03.",
    ref="DESIGN.md §4 C06"),
+ "C02": dict(
+   text="Deductive proof (K2 guard contracts) of the write-before-release ordering in the channel state machine: SignNextCommitment extends the in-memory remote chain and returns signatures only after AppendRemoteCommitChain returned nil for the CommitDiff built from exactly the view and signatures it returns; RevokeCurrentCommitment advances the local tail first, persists that commitment with UpdateCommitment, and returns the revoke_and_ack (for the old height) only if the write returned nil; ReceiveRevocation advances the in-memory remote tail and compacts the logs only after AdvanceCommitChainTail returned nil; ReceiveNewCommitment appends the new local commitment only after the commitment signature (Verify under the remote multisig key over the sighash of this commitment tx, or the musig2 partial signature) and every HTLC signature (loop invariant + step relation) verified.",
+   note="Decides the clause 'the commitment it would broadcast after reload is never one whose revocation secret it has already released' and the persist-before-release mechanism. Not decided: that the reloaded state EQUALS the pre-crash state (serialisation round trip of channeldb/chanstate codecs and the restore functions over all crash points), forwarding packages, that the reloaded channel can continue operating. Goroutines / channels / select in SignNextCommitment and the sig pool are treated per A-seq (results of channel receives are unconstrained).",
+   ref="DESIGN.md §4 C02"),
 }
 
 NOT_APPLICABLE = {
